@@ -826,4 +826,11 @@ def no_stale(ctx):
     return stale_cache(ctx, 'NO-STALE-STATE', [],
                        'the imported lens depends on what was imported before', min_methods=0)
 
-RULES = [no_stale, c01_flat_conic, model_anchor, c18_exact_name_first, c04_vertex_curvature, c01_wiring, dispatch, keys_and_wiring, vocab, parm_offset, mode_raises, glass]
+
+def c18_model_glass(ctx):
+    """shared with C18: the model glass an unknown name is replaced by has the
+    index and Abbe number of the file (no clamping of the inputs)"""
+    from .C18 import model_glass as _r
+    return _r(ctx)
+
+RULES = [c18_model_glass, no_stale, c01_flat_conic, model_anchor, c18_exact_name_first, c04_vertex_curvature, c01_wiring, dispatch, keys_and_wiring, vocab, parm_offset, mode_raises, glass]
